@@ -56,13 +56,18 @@ structure Wf2 (c : Cfg) (s : State) : Prop where
 theorem Wf2.upd {c : Cfg} {s s' : State} (h : Wf2 c s) {t : Nat} {th th' : Thread}
     (ht : s.thr[t]? = some th)
     (hthr : s'.thr = s.thr.set t th') (hlast : s'.last = s.last) (hfreed : s'.freed = s.freed)
-    (hacc : s'.acc = s.acc) (hwr : s'.wr = s.wr) (hrace : s'.race = s.race) (huaf : s'.uaf = s.uaf)
+    (hacc : s'.acc = s.acc) (hwr : s'.wr = s.wr) (hrace : s'.race = s.race)
+    (huaf : s'.uaf = s.uaf ∨ (s.freed = 0 ∧ s'.uaf = (s.uaf || decide (0 < s.freed))))
     (hown : owned th' = owned th)
     (hview : ∀ u : Nat, vat th.view u ≤ vat th'.view u)
     (hexcl0 : excl th' = false → owned th = 0 → excl th = false)
     (hknow : excl th' = true → ∀ u : Nat, vat s.acc u ≤ vat (know th') u) :
     Wf2 c s' := by
-  refine ⟨?_, ?_, ?_, ?_, ?_, by rw [hrace]; exact h.race, by rw [huaf]; exact h.uaf⟩
+  have huaf' : s'.uaf = false := by
+    rcases huaf with hu | ⟨hf0, hu⟩
+    · rw [hu]; exact h.uaf
+    · rw [hu, h.uaf, hf0]; simp
+  refine ⟨?_, ?_, ?_, ?_, ?_, by rw [hrace]; exact h.race, huaf'⟩
   · intro u uh hu
     rw [hthr] at hu
     rw [hacc]
@@ -276,7 +281,7 @@ theorem Wf2.rmwSub {c : Cfg} {s : State} (h1 : Wf1 c s) (h : Wf2 c s) {t : Nat} 
   have hs' : doRmw s t th o nv ⟨.drop, code', s.last.val⟩ =
       { s with hist := s.hist ++ [s.last],
                last := { val := nv, rel := vjoin (if o.isRelease then th.view else []) s.last.rel },
-               thr := s.thr.set t th' } := by
+               thr := s.thr.set t th', uaf := s.uaf || decide (0 < s.freed) } := by
     subst hth'; rfl
   rw [hs']
   have hmono : ∀ u : Nat, vat th.view u ≤ vat th'.view u := by
@@ -294,7 +299,7 @@ theorem Wf2.rmwSub {c : Cfg} {s : State} (h1 : Wf1 c s) (h : Wf2 c s) {t : Nat} 
   have hrelv : ∀ u : Nat, max (vat th.view u) (vat s.last.rel u) ≤
       vat (vjoin (if o.isRelease then th.view else []) s.last.rel) u := by
     intro u; simp [hrel]
-  refine ⟨?_, ?_, ?_, ?_, ?_, h.race, h.uaf⟩
+  refine ⟨?_, ?_, ?_, ?_, ?_, h.race, by simp [h.uaf, hf0]⟩
   · intro u uh hu
     rcases get_set_cases ht hu with ⟨rfl, rfl⟩ | ⟨_, hu'⟩
     · exact Nat.le_trans (h.B _ th ht) (hmono _)
@@ -374,7 +379,7 @@ theorem Wf2.casSucc {c : Cfg} {s : State} (h1 : Wf1 c s) (h : Wf2 c s) {t : Nat}
   have hs' : doRmw s t th o nv ⟨.clone, [.ret .done], old⟩ =
       { s with hist := s.hist ++ [s.last],
                last := { val := nv, rel := vjoin (if o.isRelease then th.view else []) s.last.rel },
-               thr := s.thr.set t th' } := by
+               thr := s.thr.set t th', uaf := s.uaf || decide (0 < s.freed) } := by
     subst hth'; rfl
   rw [hs']
   have hmono : ∀ u : Nat, vat th.view u ≤ vat th'.view u := by
@@ -387,7 +392,7 @@ theorem Wf2.casSucc {c : Cfg} {s : State} (h1 : Wf1 c s) (h : Wf2 c s) {t : Nat}
   have hrelv : ∀ u : Nat, vat s.last.rel u ≤
       vat (vjoin (if o.isRelease then th.view else []) s.last.rel) u := by
     intro u; simp only [vat, vat_vjoin]; omega
-  refine ⟨?_, ?_, ?_, ?_, ?_, h.race, h.uaf⟩
+  refine ⟨?_, ?_, ?_, ?_, ?_, h.race, by simp [h.uaf, hf0]⟩
   · intro u uh hu
     rcases get_set_cases ht hu with ⟨rfl, rfl⟩ | ⟨_, hu'⟩
     · exact Nat.le_trans (h.B _ th ht) (hmono _)
